@@ -137,7 +137,8 @@ def check_document_shape(ctx):
                     def decide(e, node, sp, is_cfg=is_cfg):
                         if isinstance(e, ast.Call) and isinstance(e.func, ast.Name) and e.func.id == "isinstance" and len(e.args) == 2 and is_root(e.args[0], node, sp):
                             spec = an.ft(fn).class_spec(e.args[1], {}) or []
-                            outs = [False if s_ in ("dict", "OrderedDict", "Mapping", "MutableMapping") else (is_cfg if s_ == "Config" else None) for s_ in spec]
+                            outs = [False if str(s_).split(".")[-1] in ("dict", "OrderedDict", "Mapping", "MutableMapping") else (is_cfg if s_ == "Config" else None)
+                                    for s_ in spec]
                             if outs and any(o is True for o in outs):
                                 return True
                             if outs and all(o is False for o in outs):
